@@ -65,9 +65,9 @@ CLAIMED["C03"] = dict(
          "source, translated to the verified regex fragment by gen_tables.py on every run. Tied to the code by an exhaustive "
          "name-rule differential, random trees on disk through the real iter_files / lint / spdx / annotate --recursive, and "
          "random Git repositories judged by `git check-ignore`.",
-    note="Partial: Git is an oracle (check-ignore, .gitmodules), os.walk/stat are modelled by the tree type; the equivalence "
-         "of the generated name patterns with the property's name clauses is checked exhaustively to a bound plus a boundary "
-         "list (not yet a theorem). Known findings: CAL-1.0/SHL-2.1 workaround names; ignored files inside wholly untracked "
+    note="Partial: Git is an oracle (check-ignore, .gitmodules), os.walk/stat are modelled by the tree type; the name "
+         "theorems (C03_names_partial, C03_dir_names, C03_meson_names) are about the patterns regenerated from the source "
+         "and hold for every name without a newline. Known findings: CAL-1.0/SHL-2.1 workaround names; ignored files inside wholly untracked "
          "directories. Names containing a newline are a documented boundary. Only Git is installed.",
     technique="Lean 4 proof (mutual structural induction over the tree) + generated regex tables + real-tree and real-Git differential",
     design="§4 C03",
